@@ -8,6 +8,7 @@ import (
 	"os"
 	"runtime"
 	stdsync "sync"
+	"sync/atomic"
 	"time"
 
 	"github.com/NethermindEth/juno/blockchain"
@@ -24,7 +25,7 @@ import (
 // Decision is one choice of the environment (the scheduler). A run is reproducible from its
 // scenario: the seed fixes the blocks, the decisions fix every answer and every source step.
 type Decision struct {
-	Op    string   `json:"op"`             // src | resp | sync
+	Op    string   `json:"op"`             // src | resp | sync | restart
 	Kind  string   `json:"kind,omitempty"` // resp: block | latest
 	H     uint64   `json:"h,omitempty"`    // resp/block: requested height
 	R     string   `json:"r,omitempty"`    // resp: ok | bad | fg (forged) | wh (wrong height) | err
@@ -48,6 +49,7 @@ type Scenario struct {
 	Plan      []SrcStep  `json:"plan"`
 	Decisions []Decision `json:"decisions,omitempty"`
 	MaxFaults int        `json:"max_faults"`
+	Restarts  int        `json:"restarts,omitempty"` // random mode: the node may be stopped and restarted this often
 	Steps     int        `json:"steps"`
 }
 
@@ -108,9 +110,14 @@ type run struct {
 	abort     chan struct{}
 	rng       *rand.Rand
 	note      string
+	restarts  int
 	broken    string
 	hung      string // the node neither calls the source nor returns (what was recorded before is still valid)
+	panicked  string // a panic of the real code, recovered on the goroutine that runs Synchronizer.Run
 	spins     int    // OnReorg calls that did not move the head (logged up to a cap)
+	extra     []finding // findings of the concurrent reader / the retained-value checks
+	live      *liveNode
+	exited    atomic.Bool // Run returned although nobody stopped the node
 }
 
 func (r *run) log(ev vh.J) int {
@@ -527,7 +534,7 @@ func (r *run) waitPending(pred func(*request) bool, timeout time.Duration, flush
 			}
 		}
 		r.mu.Unlock()
-		if time.Now().After(deadline) {
+		if time.Now().After(deadline) || r.exited.Load() {
 			return nil
 		}
 		time.Sleep(100 * time.Microsecond)
@@ -550,6 +557,12 @@ func (r *run) randomPhase() {
 			continue
 		}
 		r.mu.Unlock()
+		if r.restarts < r.sc.Restarts && r.rng.Float64() < 0.03 {
+			if !r.restartNode(r.rng.Intn(2) == 0) {
+				return
+			}
+			continue
+		}
 		rq := r.waitPending(anyReq, stallTimeout, r.rng.Intn(2) == 0)
 		if rq == nil {
 			r.broken = "node stopped calling the source (random phase)"
@@ -668,6 +681,11 @@ func (r *run) scriptPhase() bool {
 			}
 			r.release(rq, d)
 			r.mu.Unlock()
+		case "restart":
+			r.settle()
+			if !r.restartNode(d.Burst) {
+				return false
+			}
 		default:
 			r.broken = "unknown decision " + d.Op
 			return false
@@ -752,114 +770,3 @@ func (r *run) finalChain() []int {
 }
 
 // execute performs one run and returns its events.
-func execute(sc *Scenario, tr int) (*run, error) {
-	w, err := newWorld(sc.Seed, sc.NewState, sc.InitLen, sc.Plan)
-	if err != nil {
-		return nil, err
-	}
-	r := &run{
-		sc: sc, w: w, node: chainkit.NewNode(nil, sc.NewState), curVer: 1, abort: make(chan struct{}),
-		rng: rand.New(rand.NewSource(sc.Seed*7919 + 13)),
-	}
-	s := jsync.New(r.node.BC, r, log.NewNopZapLogger(), 0, false, r.node.Store).WithListener(&jsync.SelectiveListener{
-		OnSyncStepDoneCb: func(op string, n uint64, _ time.Duration) {
-			if op == jsync.OpStore {
-				r.onStored(n)
-			}
-		},
-		OnReorgCb: r.onReverted,
-	})
-	heads, reorgs := s.SubscribeNewHeads(), s.SubscribeReorg()
-	var readers stdsync.WaitGroup
-	readers.Add(2)
-	go func() {
-		defer readers.Done()
-		for b := range heads.Recv() {
-			r.mu.Lock()
-			if !r.closed {
-				t, ok := w.byHash[*b.Hash]
-				if !ok {
-					t = -1
-				}
-				r.log(vh.J{"ev": "NewHead", "tag": t, "h": int(b.Number)})
-			}
-			r.mu.Unlock()
-		}
-	}()
-	go func() {
-		defer readers.Done()
-		for m := range reorgs.Recv() {
-			r.mu.Lock()
-			if !r.closed {
-				st, ok1 := w.byHash[*m.StartBlockHash]
-				en, ok2 := w.byHash[*m.EndBlockHash]
-				if !ok1 {
-					st = -1
-				}
-				if !ok2 {
-					en = -1
-				}
-				r.log(vh.J{"ev": "ReorgMsg", "s": st, "e": en, "sn": int(m.StartBlockNum), "en": int(m.EndBlockNum)})
-			}
-			r.mu.Unlock()
-		}
-	}()
-
-	r.mu.Lock()
-	r.log(vh.J{"ev": "Reset", "tr": tr, "chain": r.cur(), "name": sc.Name})
-	r.mu.Unlock()
-
-	ctx, cancel := context.WithCancel(context.Background())
-	done := make(chan struct{})
-	go func() {
-		defer close(done)
-		_ = s.Run(ctx)
-	}()
-
-	followed := true
-	if sc.Mode == "script" {
-		followed = r.scriptPhase()
-	} else {
-		r.randomPhase()
-	}
-	_ = followed
-	converged := false
-	if r.broken == "" {
-		r.mu.Lock()
-		for r.srcStep() { // a script that was abandoned still applies the rest of its plan
-		}
-		r.mu.Unlock()
-		converged = r.stablePhase()
-	}
-	r.settle()
-	r.mu.Lock()
-	writesBefore := r.lastWrite
-	r.mu.Unlock()
-	final := r.finalChain()
-	r.mu.Lock()
-	if r.lastWrite != writesBefore { // the chain changed while it was being read: inconclusive run
-		r.lateWrite++
-	}
-	r.log(vh.J{"ev": "End", "tr": tr, "final": final, "conv": converged, "src": r.cur(), "local": append([]int{}, r.shadow...)})
-	r.closed = true
-	r.mu.Unlock()
-
-	cancel()
-	close(r.abort)
-	select {
-	case <-done:
-	case <-time.After(15 * time.Second):
-		buf := make([]byte, 1<<18)
-		buf = buf[:runtime.Stack(buf, true)]
-		fmt.Fprintf(os.Stderr, "goroutines after cancellation:\n%s\n", buf)
-		r.hung = "Synchronizer.Run did not return within 15 s of its context being cancelled"
-		return r, nil
-	}
-	heads.Unsubscribe()
-	reorgs.Unsubscribe()
-	readers.Wait()
-	if after := r.finalChain(); !equalInts(after, final) {
-		r.lateWrite++
-	}
-	return r, nil
-}
